@@ -9,6 +9,7 @@ type PropRun struct {
 // Registry maps property ids to their checkers.
 var Registry = map[string]PropRun{
 	"C04": {"proof", RunC04},
+	"C20": {"proof", RunC20},
 }
 
 // Merge appends the obligations of another run (e.g. another GOARCH), tagging their keys.
